@@ -3,6 +3,7 @@ package backends
 import (
 	"bytes"
 	"context"
+	"sync"
 	"encoding/base64"
 	"fmt"
 	"os"
@@ -22,7 +23,12 @@ import (
 
 type C17Cut struct {
 	N    int    `json:"n"`    // the write is cut after N bytes (RLIMIT_FSIZE)
-	Mode string `json:"mode"` // crash (process killed by SIGXFSZ) | ioerr (write returns EFBIG) | ioerr-same (EFBIG in this process; the same store object then stores again)
+	// Mode: crash (process killed by SIGXFSZ) | ioerr (write returns EFBIG) | ioerr-same (EFBIG in this process; the same
+	// store object then stores again) | ioerr-concurrent (EFBIG in this process while 2-6 goroutines store the same node) |
+	// ctxcancel (the context handed to Store reports cancellation from its N-th query on) |
+	// fullfs (the node directory is a tmpfs of N KiB of its own, smaller than the node: the write runs out of space
+	// there, wherever the implementation keeps its temporary files; needs the right to mount, skipped otherwise)
+	Mode string `json:"mode"`
 }
 
 type C17Case struct {
@@ -34,7 +40,11 @@ type C17Case struct {
 func c17Child() {
 	dir := os.Getenv("VERIF_C17_DIR")
 	name := os.Getenv("VERIF_C17_NAME")
-	payload, _ := base64.StdEncoding.DecodeString(os.Getenv("VERIF_C17_PAYLOAD"))
+	payload, err := os.ReadFile(os.Getenv("VERIF_C17_PAYLOAD_FILE"))
+	if err != nil {
+		fmt.Fprintln(os.Stderr, "payload file:", err)
+		os.Exit(90)
+	}
 	n, _ := strconv.Atoi(os.Getenv("VERIF_C17_N"))
 	lim := syscall.Rlimit{Cur: uint64(n), Max: uint64(n)}
 	if err := syscall.Setrlimit(syscall.RLIMIT_FSIZE, &lim); err != nil {
@@ -69,6 +79,9 @@ func genC17(t *rapid.T, tier string) C17Case {
 		maxLen = 70000
 	}
 	n := rapid.IntRange(1, maxLen).Draw(t, "len")
+	if rapid.IntRange(0, 4).Draw(t, "large") == 0 {
+		n = rapid.IntRange(65537, 300000).Draw(t, "largelen") // more than one 64 KiB chunk
+	}
 	if rapid.IntRange(0, 3).Draw(t, "pagey") == 0 {
 		n = rapid.SampledFrom([]int{4095, 4096, 4097, 8192}).Draw(t, "pagelen")
 		if tier != "thorough" && n > 4097 {
@@ -83,7 +96,7 @@ func genC17(t *rapid.T, tier string) C17Case {
 	c := C17Case{Payload: base64.StdEncoding.EncodeToString(b)}
 	nc := rapid.IntRange(1, 3).Draw(t, "ncuts")
 	for i := 0; i < nc; i++ {
-		cut := C17Cut{Mode: rapid.SampledFrom([]string{"crash", "ioerr", "ioerr-same"}).Draw(t, "mode")}
+		cut := C17Cut{Mode: rapid.SampledFrom([]string{"crash", "ioerr", "ioerr-same", "ioerr-concurrent", "ctxcancel"}).Draw(t, "mode")}
 		switch rapid.IntRange(0, 4).Draw(t, "where") {
 		case 0:
 			cut.N = rapid.SampledFrom([]int{0, 1, n - 1, n, n + 1}).Draw(t, "edge")
@@ -124,12 +137,28 @@ func enumC17(tier string, shard, nshards int, yield func(C17Case) bool) (bool, s
 			}
 		}
 	}
+	// the node directory on a small file system of its own (3 cases per run)
+	for _, kib := range []int{64, 128} {
+		for _, l := range []int{kib*1024 + 40000, 3 * kib * 1024} {
+			i++
+			if i%nshards != shard {
+				continue
+			}
+			b := make([]byte, l)
+			for j := range b {
+				b[j] = byte(j * 13)
+			}
+			if !yield(C17Case{Payload: base64.StdEncoding.EncodeToString(b), Cuts: []C17Cut{{N: kib, Mode: "fullfs"}}}) {
+				return false, ""
+			}
+		}
+	}
 	return true, fmt.Sprintf("payload lengths %v x EVERY cut offset 0..len x {process killed at that byte, write returns an I/O error at that byte}", lens)
 }
 
-func runChild(dir, name, payloadB64 string, cut C17Cut) (exit int, err error) {
+func runChild(dir, name, payloadFile string, cut C17Cut) (exit int, err error) {
 	cmd := exec.Command(os.Args[0], "-test.run", "^$")
-	cmd.Env = append(os.Environ(), "VERIF_C17_CHILD=1", "VERIF_C17_DIR="+dir, "VERIF_C17_NAME="+name, "VERIF_C17_PAYLOAD="+payloadB64,
+	cmd.Env = append(os.Environ(), "VERIF_C17_CHILD=1", "VERIF_C17_DIR="+dir, "VERIF_C17_NAME="+name, "VERIF_C17_PAYLOAD_FILE="+payloadFile,
 		"VERIF_C17_N="+strconv.Itoa(cut.N), "VERIF_C17_MODE="+cut.Mode)
 	var stderr bytes.Buffer
 	cmd.Stderr = &stderr
@@ -164,6 +193,12 @@ func runC17(c C17Case, o *run.Obs) error {
 		return fmt.Errorf("harness: %w", err)
 	}
 	defer os.RemoveAll(dir)
+	// the payload travels to the child processes through a file next to (not inside) the node directory
+	payloadFile := dir + ".payload"
+	if err := os.WriteFile(payloadFile, payload, 0o644); err != nil {
+		return fmt.Errorf("harness: %w", err)
+	}
+	defer os.Remove(payloadFile)
 	name := ref.NodeName(payload)
 	ctx := context.Background()
 	check := func(when string, mustBeComplete bool) error {
@@ -182,6 +217,102 @@ func runC17(c C17Case, o *run.Obs) error {
 	}
 	nontrivial := false
 	for i, cut := range c.Cuts {
+		if cut.Mode == "fullfs" {
+			// the node directory becomes a tmpfs of cut.N KiB: the node does not fit
+			if err := syscall.Mount("tmpfs", dir, "tmpfs", 0, fmt.Sprintf("size=%dk", cut.N)); err != nil {
+				o.Label("skipped:mount-not-permitted")
+				continue
+			}
+			unmounted := false
+			unmount := func() {
+				if !unmounted {
+					syscall.Unmount(dir, syscall.MNT_DETACH)
+					unmounted = true
+				}
+			}
+			defer unmount()
+			p := file.NewPersistForPath(dir)
+			serr := p.Store(ctx, name, payload)
+			when := fmt.Sprintf("payload of %d bytes into a node directory on a file system of %d KiB (Store returned %v)", len(payload), cut.N, serr)
+			if err := check(when, serr == nil); err != nil {
+				unmount()
+				return err
+			}
+			// more room: the same node is stored again and must now be complete
+			if err := syscall.Mount("tmpfs", dir, "tmpfs", syscall.MS_REMOUNT, fmt.Sprintf("size=%dk", 8*cut.N+len(payload)/256)); err != nil {
+				unmount()
+				return fmt.Errorf("harness: remount: %w", err)
+			}
+			if err := p.Store(ctx, name, payload); err != nil {
+				unmount()
+				return fmt.Errorf("%s: after the file system was enlarged, storing the node again failed: %v", when, err)
+			}
+			if err := check(when+", then enlarged and stored again", true); err != nil {
+				unmount()
+				return err
+			}
+			unmount()
+			nontrivial = true
+			o.Label("mode=fullfs")
+			// the final re-store below runs on the (now empty) plain directory again
+			continue
+		}
+		if cut.Mode == "ctxcancel" {
+			// Store with a context that reports cancellation from its N-th query on: whatever Store makes of it,
+			// success must mean complete and nothing partial may appear under the name
+			p := file.NewPersistForPath(dir)
+			cctx := &countdownCtx{Context: context.Background(), after: cut.N % 12}
+			serr := p.Store(cctx, name, payload)
+			when := fmt.Sprintf("payload of %d bytes, attempt %d with a context cancelled from its query #%d on (Store returned %v)", len(payload), i+1, cut.N%12, serr)
+			if err := check(when, serr == nil); err != nil {
+				return err
+			}
+			if len(payload) > 65536 {
+				nontrivial = true
+			}
+			o.Label("mode=ctxcancel")
+			continue
+		}
+		if cut.Mode == "ioerr-concurrent" {
+			p := file.NewPersistForPath(dir)
+			var old syscall.Rlimit
+			if err := syscall.Getrlimit(syscall.RLIMIT_FSIZE, &old); err != nil {
+				return fmt.Errorf("harness: getrlimit: %w", err)
+			}
+			lim := syscall.Rlimit{Cur: uint64(cut.N), Max: old.Max}
+			if err := syscall.Setrlimit(syscall.RLIMIT_FSIZE, &lim); err != nil {
+				return fmt.Errorf("harness: setrlimit: %w", err)
+			}
+			k := 2 + cut.N%5
+			errs := make([]error, k)
+			var wg sync.WaitGroup
+			for j := 0; j < k; j++ {
+				wg.Add(1)
+				go func(j int) {
+					defer wg.Done()
+					errs[j] = p.Store(ctx, name, payload)
+				}(j)
+			}
+			wg.Wait()
+			if err := syscall.Setrlimit(syscall.RLIMIT_FSIZE, &old); err != nil {
+				panic("harness: cannot restore RLIMIT_FSIZE: " + err.Error())
+			}
+			anyOK := false
+			for _, e := range errs {
+				if e == nil {
+					anyOK = true
+				}
+			}
+			when := fmt.Sprintf("payload of %d bytes, attempt %d: %d concurrent stores of the node with writes cut at byte %d (results %v)", len(payload), i+1, k, cut.N, errs)
+			if err := check(when, anyOK); err != nil {
+				return err
+			}
+			if cut.N > 0 && cut.N < len(payload) {
+				nontrivial = true
+			}
+			o.Label("mode=ioerr-concurrent")
+			continue
+		}
 		if cut.Mode == "ioerr-same" {
 			// the write fails with EFBIG inside this process; the SAME store object is then asked to store again
 			p := file.NewPersistForPath(dir)
@@ -214,7 +345,7 @@ func runC17(c C17Case, o *run.Obs) error {
 			o.Label("mode=ioerr-same")
 			continue
 		}
-		exit, err := runChild(dir, name, c.Payload, cut)
+		exit, err := runChild(dir, name, payloadFile, cut)
 		if err != nil {
 			return fmt.Errorf("harness: child process: %w", err)
 		}
@@ -264,4 +395,46 @@ func init() {
 		Run:         runC17,
 		Enumerate:   enumC17,
 	})
+}
+
+// countdownCtx reports cancellation from its `after`-th Err/Done query on.
+type countdownCtx struct {
+	context.Context
+	mu    sync.Mutex
+	n     int
+	after int
+	done  chan struct{}
+}
+
+func (c *countdownCtx) tick() bool {
+	c.mu.Lock()
+	defer c.mu.Unlock()
+	c.n++
+	return c.n > c.after
+}
+
+func (c *countdownCtx) Err() error {
+	if c.tick() {
+		return context.Canceled
+	}
+	return nil
+}
+
+func (c *countdownCtx) Done() <-chan struct{} {
+	c.mu.Lock()
+	if c.done == nil {
+		c.done = make(chan struct{})
+	}
+	ch := c.done
+	c.mu.Unlock()
+	if c.tick() {
+		c.mu.Lock()
+		select {
+		case <-ch:
+		default:
+			close(ch)
+		}
+		c.mu.Unlock()
+	}
+	return ch
 }
